@@ -337,6 +337,11 @@ def model(draw, kind=None, want_mix=False, nsol=None):
             m["rx"] = draw(reaction(rn[1]))
     has_reaction = kind != "spec" or len(m["src"]) > 1 or m["src"][0][1] != 1.0
     m["has_reaction"] = has_reaction
+    if has_reaction:
+        # reaction rows are not redox-poised: the solutions must not carry a real inventory of H2 or O2 (pe + pH in 9..15),
+        # otherwise C(4)/C(-4) and S(6)/S(-2) are coupled to an ill-conditioned electron balance (DESIGN 4, rule 7)
+        for s in sols:
+            s["pe"] = round(min(max(s["pe"], 9.0 - s["pH"]), 15.0 - s["pH"]), 2)
     if has_reaction and draw(st.integers(0, 2)) == 0:
         m["save"] = numbers[nsol]
         st2 = {"src": [[m["save"], 1.0]], "eq": None, "rx": None, "mixn": draw(st.integers(31, 40))}
